@@ -26,14 +26,25 @@ TRUSTED = [
     "harness/props/c09.py: exact float->rational conversion, the certificate search among exactly tied neighbours, capture of torch.mv's argument/result "
     "inside UserKNNScorer.__call__ by wrapping torch.mv in the harness process",
     "torch / scipy.sparse kernels (mv, topk, argsort, CSR/CSC slicing) are exercised, not verified",
+    "large cases (harness/c09_large.py): data synthesis from the recipe, the NumPy (float64) evaluation of the definition with its bands (2e-6 around "
+    "the threshold and at the k-th similarity, alternatives enumerated), and the scan of the k-NN modules for numeric constants that sizes them; "
+    "these cases are not tied to the Coq model",
 ]
 ASSUMPTIONS = [
     "similarity threshold min_sim > 0 (PositiveFloat in the configuration), so every stored similarity is positive (hypothesis positive_sims of the item-side theorems)",
     "a query history lists an item at most once; ratings are finite",
     "the comparison nbr_sims >= min_sim of user-kNN is done in float32 (torch converts the Python scalar); the model uses float32(min_sim)",
     "cosine values are compared through their squares up to 2^-20: equality with the (irrational) cosine itself is not claimed exactly",
+    "rating magnitudes are explored as powers of two between 2^-46 and 2^46 (float arithmetic then scales exactly, so the tolerances and the "
+    "zero-by-cancellation decisions of the unscaled case carry over); magnitudes whose squares leave the float32 range are not explored",
+    "a numeric constant >= 256 in lenskit/knn/*.py or lenskit/math/sparse.py is treated as a possible size threshold and the large cases are sized "
+    "to exceed it twice; a size threshold computed otherwise (or placed in another module) is only met by the fixed 10000-user corpus cases",
 ]
-RULE = ("structured generator: 2-8 users x 2-8 items (pre-declared; some without ratings), ratings in half steps, optional duplicated users/items "
+RULE = ("LARGE cases (2 user-kNN, explicit + implicit, and 1 item-kNN per quick run; thousands of users / items, sized from the numeric constants "
+        ">= 256 of the k-NN source: more than twice the largest, at least 3000 users / 1500 items; most users qualify as neighbours, niche items are "
+        "rated by a handful of low-similarity users, k small; histories longer than any constant) judged by a NumPy evaluation of the definition "
+        "alone, no Coq correspondence.  Small cases: structured generator: 2-8 users x 2-8 items (pre-declared; some without ratings), ratings in half steps, rating magnitude 2^-46 .. 2^46 (every rating of the case multiplied by a power of "
+        "two; the observation is taken in units of it and must be that of the unscaled case), optional duplicated users/items "
         "(exactly tied similarities) and constant rows (zero norm after centring); explicit or implicit feedback; k in 1..4, min_nbrs in 1..3 "
         "(also > k), dyadic and non-dyadic thresholds (some equal to an attained cosine), save_nbrs none/1..3, two block sizes per case; item-kNN "
         "queries: a training user's row, custom histories with unknown items, empty history; user-kNN queries: known id, known id + history, "
@@ -54,6 +65,12 @@ TOLD = "(1 # 262144)"        # 2^-18: float32 dot products of up to 8 terms
 # ---------------------------------------------------------------------------------------------
 
 HIST_KINDS = ["f32", "f32", "f64", "list", "arrow"]
+# rating MAGNITUDE: every rating of a case (training data, query histories) is multiplied by 2**scale_log2.  Cosine similarity does not
+# depend on the magnitude of the rating vectors and explicit-feedback scores scale with it, so the observation is reported in units of the
+# scale and has to be what the unscaled case gives.  Powers of two only: the float computations of the scaled case are then exactly the
+# scaled computations of the unscaled one (no underflow / overflow between 2**-46 ~ 1.4e-14 and 2**46 ~ 7e13, also for squares in float32),
+# so the tolerances and the exact-zero decisions (constant histories) of the unscaled case carry over unchanged.
+SCALES = [(0, 12), (-46, 3), (-40, 1), (-33, 1), (-20, 1), (-7, 1), (10, 1), (24, 1), (33, 1), (46, 2)]
 MIN_SIMS = [Fraction(1, 1024), Fraction(1, 8), Fraction(1, 4), Fraction(1, 2), Fraction(1e-6), Fraction(0.05), Fraction(0.3)]
 
 
@@ -113,6 +130,7 @@ def gen_case(rng, edge=False):
     min_sim = rng.weighted([(m, w) for m, w in zip(MIN_SIMS, [4, 3, 2, 1, 4, 3, 2])])
     save = rng.weighted([(None, 3), (1, 1), (2, 2), (3, 1)])
     bs = rng.sample([1, 2, 3, 5, 250], 2)
+    scale_log2 = rng.fork("scale").weighted(SCALES)
 
     def rand_hist(unknown=True):
         ids = rng.sample(list(range(ni)), rng.randint(1, min(ni, 5)))
@@ -169,12 +187,47 @@ def gen_case(rng, edge=False):
     # a threshold equal to an attained cosine now and then: handled by the band
     return {"nu": nu, "ni": ni, "ratings": ratings, "feedback": feedback, "k": k, "min_nbrs": min_nbrs,
             "min_sim": fjson(min_sim), "save_nbrs": save, "block_sizes": bs, "item_queries": iq, "user_queries": uq,
-            "retrain": retrain, "style": style}
+            "retrain": retrain, "style": style, "scale_log2": scale_log2}
+
+
+def large_sizes():
+    """sizes of the large cases, derived from the numeric constants of the k-NN source (harness/c09_large.py); a constant that cannot be
+    exceeded is reported by `translate` -- the cases are then generated at the largest affordable size all the same"""
+    import c09_large as L
+    out = {}
+    for which in ("user", "item"):
+        try:
+            out[which] = L.size_for(which)
+        except L.SizeError:
+            out[which] = (2 * L.CAP[which] + L.MARGIN[which], L.CAP[which])
+    return out
+
+
+def translate():
+    """no fragment is regenerated; the source is scanned for numeric constants that may be size thresholds (fail closed)"""
+    import c09_large as L
+    from framework import TranslateError
+    try:
+        for which in ("user", "item"):
+            L.size_for(which)
+    except L.SizeError as e:
+        raise TranslateError(str(e)) from None
+    return {}
 
 
 def gen_cases(rng, tier):
+    import c09_large as L
     n = 320 if tier == "quick" else 2000
-    return [gen_case(rng.fork(k), edge=(k % 3 == 2)) for k in range(n)]
+    sizes = large_sizes()
+    lr = rng.fork("large")
+    plan = ["user", "user", "item"] if tier == "quick" else ["user", "user", "item", "user", "user", "item"]
+    large = []
+    for j, which in enumerate(plan):
+        c = L.gen_large(lr.fork(j), which, *sizes[which])
+        if which == "user":          # both feedback modes in every run
+            c["feedback"] = "explicit" if sum(1 for x in large if x["large"] == "user") % 2 == 0 else "implicit"
+        large.append(c)
+    return large + [gen_case(rng.fork(k), edge=(k % 3 == 2)) for k in range(n)]
 
 
 # ---------------------------------------------------------------------------------------------
@@ -221,11 +274,17 @@ def _nums(a):
     return [_num(v) for v in np.asarray(a, dtype=float).tolist()]
 
 
+def scale_of(case):
+    """the factor every rating of the case is multiplied by (a power of two: exact in every float type)"""
+    return 2.0 ** int(case.get("scale_log2") or 0)
+
+
 def build_dataset(case):
+    sc = scale_of(case)
     df = pd.DataFrame({
         "user_id": [uid(r[0]) for r in case["ratings"]],
         "item_id": [iid(r[1]) for r in case["ratings"]],
-        "rating": [float(fparse(r[2])) for r in case["ratings"]],
+        "rating": [float(fparse(r[2])) * sc for r in case["ratings"]],
     })
     dsb = DatasetBuilder()
     dsb.add_entities("item", [iid(i) for i in range(case["ni"])])
@@ -241,10 +300,10 @@ def _ilist(items, ratings=None):
     return ItemList(item_ids=arr, rating=np.array([float(fparse(r)) for r in ratings], dtype=np.float32))
 
 
-def make_hist(q):
+def make_hist(q, sc=1.0):
     """the query's history in the generated container; returns (ItemList, caller-side array or None, original values)"""
     ids = [iid(x) for x, _ in q["hist"]]
-    vals = [float(fparse(r)) for _, r in q["hist"]]
+    vals = [float(fparse(r)) * sc for _, r in q["hist"]]
     kind = q.get("hist_kind", "f32")
     keep = None
     if kind in ("f32", "f64"):
@@ -290,8 +349,9 @@ class FailingData:
 def second_dataset(case, constant):
     """data for the re-training: first user and first item gone (every number shifts), optionally constant ratings"""
     rows = [r for r in case["ratings"] if r[0] != 0 and r[1] != 0] or [[1, 1, "3/1"]]
+    sc = scale_of(case)
     df = pd.DataFrame({"user_id": [uid(r[0]) for r in rows], "item_id": [iid(r[1]) for r in rows],
-                       "rating": [3.0 if constant else float(fparse(r[2])) for r in rows]})
+                       "rating": [(3.0 if constant else float(fparse(r[2]))) * sc for r in rows]})
     dsb = DatasetBuilder()
     dsb.add_entities("item", [iid(i) for i in range(1, case["ni"])])
     dsb.add_entities("user", [uid(u) for u in range(1, case["nu"])])
@@ -382,11 +442,25 @@ def run_impl(case):
     _setup()
     import warnings
     warnings.filterwarnings("ignore")
+    if case.get("large"):
+        import c09_large as L
+        return L.run_large(case)
     ds = build_dataset(case)
     ni, nu = case["ni"], case["nu"]
     min_sim = float(fparse(case["min_sim"]))
     cfg = dict(k=case["k"], min_nbrs=case["min_nbrs"], min_sim=min_sim, feedback=case["feedback"])
-    obs = {}
+    sc = scale_of(case)
+    # quantities in rating units (means, centred ratings, explicit-feedback scores) are reported in units of the scale (exact division)
+    unit = sc if case["feedback"] == "explicit" else 1.0
+
+    def _numu(x):
+        f = frac_of_float(x)
+        return None if f is None else fjson(f / Fraction(unit))
+
+    def _numsu(a):
+        return [_numu(v) for v in np.asarray(a, dtype=float).tolist()]
+
+    obs = {"unit": fjson(Fraction(unit))}
     # ---- item-kNN
     mats = []
     for bs in case["block_sizes"]:
@@ -401,7 +475,7 @@ def run_impl(case):
     case_of = {n: i for i, n in enumerate(inum)}
     obs["S"] = _csr_rows(s.sim_matrix_.tocsr(), inum, case_of)
     obs["sorted_indices"] = bool(all(list(np.diff(s.sim_matrix_.indices[s.sim_matrix_.indptr[r]:s.sim_matrix_.indptr[r + 1]]) > 0) == [True] * max(0, s.sim_matrix_.indptr[r + 1] - s.sim_matrix_.indptr[r] - 1) for r in range(ni)))
-    obs["item_means"] = None if s.item_means_ is None else [_num(s.item_means_[n]) for n in inum]
+    obs["item_means"] = None if s.item_means_ is None else [_numu(s.item_means_[n]) for n in inum]
     obs["item_counts"] = [int(s.item_counts_[n]) for n in inum]
     obs["retrain_raised"] = {}
     obs["model_unchanged"] = {}
@@ -413,11 +487,11 @@ def run_impl(case):
     for j, q in enumerate(case["item_queries"]):
         base = j if q.get("same_as") is None else q["same_as"]
         if base not in objs:
-            il, keep, orig = make_hist(q)
+            il, keep, orig = make_hist(q, sc)
             objs[base] = (RecQuery(user_id=12345, user_items=il), il, keep, orig)
         try:
             res = s(objs[base][0], _ilist(q["items"]))
-            iq.append({"scores": _nums(res.scores()), "aligned": list(res.ids()) == [iid(x) for x in q["items"]]})
+            iq.append({"scores": _numsu(res.scores()), "aligned": list(res.ids()) == [iid(x) for x in q["items"]]})
         except Exception as e:  # noqa: BLE001
             iq.append({"scores": [None] * len(q["items"]), "aligned": True, "error": f"{type(e).__name__}: {e}"[:120]})
     for j, o in enumerate(iq):
@@ -436,10 +510,10 @@ def run_impl(case):
     rows = []
     for un in unum:
         lo, hi = R.indptr[un], R.indptr[un + 1]
-        d = {int(c): _num(v) for c, v in zip(R.indices[lo:hi], R.data[lo:hi])}
+        d = {int(c): _numu(v) for c, v in zip(R.indices[lo:hi], R.data[lo:hi])}
         rows.append([d.get(im) for im in inum2])
     obs["UR"] = rows
-    obs["user_means"] = None if us.user_means_ is None else [_num(us.user_means_[un].item()) for un in unum]
+    obs["user_means"] = None if us.user_means_ is None else [_numu(us.user_means_[un].item()) for un in unum]
     case_user = {n: u for u, n in enumerate(unum)}
     if case.get("retrain"):
         before = snap_user(us)
@@ -453,7 +527,7 @@ def run_impl(case):
             if q["hist"] is None:
                 uobjs[base] = (RecQuery(user_id=uid(q["user"]), user_items=None), None, None, None)
             else:
-                il, keep, orig = make_hist(q)
+                il, keep, orig = make_hist(q, sc)
                 uobjs[base] = (RecQuery(user_id=uid(q["user"]), user_items=il), il, keep, orig)
         cap = []
 
@@ -473,7 +547,7 @@ def run_impl(case):
         if err is not None:
             uq.append({"scores": [None] * len(q["items"]), "aligned": True, "q": None, "sims": None, "error": err, "hist_intact": True})
             continue
-        o = {"scores": _nums(res.scores()), "aligned": list(res.ids()) == [iid(x) for x in q["items"]], "q": None, "sims": None}
+        o = {"scores": _numsu(res.scores()), "aligned": list(res.ids()) == [iid(x) for x in q["items"]], "q": None, "sims": None}
         if cap:
             qv, sims = cap[0]
             qv, sims = qv.numpy(), sims.numpy()
@@ -617,6 +691,8 @@ def c_orows(rows):
 
 
 def coq_term(case, obs):
+    if case.get("large"):
+        return None          # judged by the brute-force evaluation of the definition alone (see harness/c09_large.py)
     nu, ni = case["nu"], case["ni"]
     explicit = case["feedback"] == "explicit"
     cells = {(u, i): r for u, i, r in case["ratings"]}
@@ -745,6 +821,8 @@ def _cos(a, b):
 
 
 def oracle(case, obs):
+    if case.get("large"):
+        return [(k, w) for k, w in obs["findings"]]
     out = []
     ni, nu = case["ni"], case["nu"]
     explicit = case["feedback"] == "explicit"
@@ -919,11 +997,25 @@ def _shape(case, obs):
 
 
 def nontrivial(case, obs):
+    if case.get("large"):
+        br = obs["stats"]["branch"]
+        return bool(br.get("truncated") or br.get("slow")) and bool(br.get("unscored") or br.get("too-few"))
     big, small = _shape(case, obs)
     return big and small and len(case["ratings"]) >= 6
 
 
 def counters(case, obs):
+    if case.get("large"):
+        which = case["large"]
+        yield "style=" + case["style"]
+        yield f"large-{which}:feedback=" + case["feedback"]
+        yield f"large-{which}:rating-scale=2^{int(case.get('scale_log2') or 0)}"
+        yield f"large-{which}:size={case['n_users'] if which == 'user' else case['n_items']}"
+        for b in sorted(obs["stats"]["branch"]):
+            yield f"large-{which}-branch={b}"
+        if which == "user":
+            yield f"large-user:qualifying-neighbours>={obs['stats']['max_qualifying'] // 1000 * 1000}"
+        return
     yield "style=" + case["style"]
     yield "retrain-failure=" + str(case.get("retrain"))
     for q in case["item_queries"] + case["user_queries"]:
@@ -939,6 +1031,7 @@ def counters(case, obs):
                 elif case["feedback"] == "explicit" and len({r for _, r in q["hist"]}) == 1:
                     yield which + "-history=constant"
     yield "feedback=" + case["feedback"]
+    yield f"rating-scale=2^{int(case.get('scale_log2') or 0)}"
     yield f"k={case['k']}"
     yield f"min_nbrs={case['min_nbrs']}" + (">k" if case["min_nbrs"] > case["k"] else "")
     yield "save_nbrs=" + str(case["save_nbrs"])
@@ -987,6 +1080,8 @@ def counters(case, obs):
 
 
 def sample(case, obs):
+    if case.get("large"):
+        return {"case": case, "observation": {"findings": obs["findings"], "stats": obs["stats"]}}
     return {"case": {k: case[k] for k in ("nu", "ni", "feedback", "k", "min_nbrs", "min_sim", "save_nbrs", "ratings")},
             "observation": {"S": obs["S"], "item_scores": [q["scores"] for q in obs["item_queries"]],
                             "user_scores": [q["scores"] for q in obs["user_queries"]]}}
@@ -1009,6 +1104,8 @@ def _drop_queries(qs, keep_idx):
 
 
 def shrink(case, fails):
+    if case.get("large"):
+        return case          # a recipe: already as small as a description of a large data set gets
     _shrinks[0] += 1
     if _shrinks[0] > MAX_SHRINKS:
         return case
